@@ -411,7 +411,9 @@ impl Mon {
         if self.r.is("C08") {
             self.c08_ix(w, v, info);
         }
-        if self.r.is("C19") {
+        // (the payout rule of the rewards is also an authorization rule: C08 runs the same monitor and
+        // takes the one verdict that speaks about who may move an account's rewards)
+        if self.r.is("C19") || self.r.is("C08") {
             self.c19_ix(w, v, info);
         }
     }
@@ -1234,6 +1236,7 @@ impl Mon {
                 self.r.count("C19.emission_payouts");
                 if !ok {
                     self.r.violate("C19", &format!("C19/{}/emissions-paid-to-unentitled-destination", info.kind.name()), format!("bank {}: {} paid", bk, show(&paid)));
+                    self.r.violate("C08", &format!("C08/{}/rewards-moved-out-without-the-authority's-signature-or-its-registered-destination", info.kind.name()), format!("bank {}: {} paid; signers {:?}", bk, show(&paid), info.signers));
                 }
             }
         }
